@@ -134,8 +134,32 @@ macro_rules! gen_for {
                 let p = gen_params(rng, adaptive);
                 let adaptive = p.inc != 0;
                 let (long, short) = gen_oi(rng);
-                let cur = gen_cur(rng, &p);
-                let dur = gen_dur(rng);
+                let mut p = p;
+                let mut cur = gen_cur(rng, &p);
+                let mut dur = gen_dur(rng);
+                // boundary targeting: put the skew factor exactly on / next to a threshold, or the
+                // stored magnitude exactly on / next to the decrease value
+                if adaptive && long != 0 && short != 0 {
+                    let diff = if long > short { long - short } else { short - long };
+                    let dtoi = (long as u128).checked_add(short as u128).filter(|t| *t != 0 && p.exp == unit() && diff >= unit())
+                        .and_then(|t| (diff as u128).checked_mul(unit() as u128).map(|x| x / t));
+                    if let (Some(d), true) = (dtoi, rng.chance(1, 3)) {
+                        let d = d as U;
+                        let v = match rng.below(3) { 0 => d, 1 => d.saturating_add(1), _ => d.saturating_sub(1) };
+                        if rng.chance(1, 2) { p.ts = v; if p.td > p.ts { p.td = p.ts; } } else { p.td = v; if p.ts < p.td { p.ts = p.td; } }
+                        // make the stored factor point the same way as the skew so the thresholds matter
+                        if rng.chance(3, 4) { let a = cur.checked_abs().unwrap_or(S::MAX).max(1); cur = if long > short { a } else { -a }; }
+                    }
+                    if rng.chance(1, 4) && p.dec != 0 && p.dec < U::MAX / 100_000 {
+                        dur = rng.range(1, 1000);
+                        let dv = p.dec * dur as U;
+                        let mag = match rng.below(3) { 0 => dv, 1 => dv + 1, _ => dv.saturating_sub(1) };
+                        if mag <= S::MAX as U && mag != 0 {
+                            cur = if long > short { mag as S } else { -(mag as S) };
+                            p.td = unit(); p.ts = unit();   // force the Decrease arm (diff factor < threshold)
+                        }
+                    }
+                }
                 let mut m = market(&p, 10_000);
                 m.funding_factor_per_second = cur;
                 let pr = prices(100, 1);
